@@ -8,9 +8,12 @@
    output = [ status; unused answers; events (oldest first); classes by label;
               cached emptiness by label; sorted tried_to_verify; sorted
               symmetry_expanded; sorted inferral_expanded;
-              len(rule_to_strategy); len(eqv_rule_to_strategy); sorted _already_empty ] *)
+              len(rule_to_strategy); len(eqv_rule_to_strategy); sorted _already_empty ]
+   mode = 100 (compatible extension): the decision procedures of Searcher/Contracts.v instead of a run;
+     input has an 8th field `pack` (the strategies the queue may hand out); output =
+     [ pe_contractb T pack; sym_contractb T; sym_unaryb T; packets_inb pack packets; items_plainb T ] *)
 From Coq Require Import ZArith List Bool.
-From CSS Require Import Base.Sx Base.PyList ClassDB.Model Searcher.Model.
+From CSS Require Import Base.Sx Base.PyList ClassDB.Model Searcher.Model Searcher.Contracts.
 Import ListNotations.
 Open Scope Z_scope.
 
@@ -68,6 +71,11 @@ Definition run_c04 (inp : sx) : sx :=
                (sx_Zs (sx_nth inp 3)) (sx_Zs (sx_nth inp 4)) in
   let ps := map dec_packet (sx_list (sx_nth inp 5)) in
   let ans := map sx_bool (sx_list (sx_nth inp 6)) in
+  if g 0%nat =? 100 then
+    let pack := sx_Zs (sx_nth inp 7) in
+    L [ of_bool (pe_contractb T pack); of_bool (sym_contractb T); of_bool (sym_unaryb T);
+        of_bool (packets_inb pack ps); of_bool (items_plainb T) ]
+  else
   let s := run_search T (g 0%nat) (Z.to_nat (g 3%nat)) (negb (g 2%nat =? 0)) (negb (g 1%nat =? 0))
              ans (g 4%nat) ps in
   L [ I (enc_status (stat s)); of_nat (length (answers s));
